@@ -11,7 +11,7 @@ from __future__ import annotations
 
 import numpy as np
 
-from vf.core import rng_for
+from vf.core import CaseTimeout, rng_for, time_limit
 from vf.ref import irf as I
 
 LEVEL = "exploration"
@@ -69,8 +69,11 @@ def gen_case(rng, focus=None):
     scales = bool(rng.integers(2)) and kind not in ("gaussian", "spectral-gaussian")
     ng = int(rng.integers(1, 6))
     g = np.sort(rng.uniform(400, 720, ng))
-    if rng.integers(2):
+    r_ = int(rng.integers(3))
+    if r_ == 1:
         g = g[::-1].copy()
+    elif r_ == 2:
+        g = rng.permutation(g)  # a global axis is not necessarily sorted
     nrates = int(rng.integers(1, 4))
     regime = str(rng.choice(["wide", "moderate", "switch"])) if focus is None else focus
     if regime == "wide":
@@ -262,6 +265,40 @@ def run_case(case, rec, log, rng):
                 return None
             if i > 0 and not np.abs(matrix[i] - matrix[i - 1]).max() <= 1e-9 * scale:
                 disc = True
+    # (iii-b) the matrix of index i is the one that meets the data column of index i when the model is fitted: data
+    # simulated column by column as matrix[i] @ clp_i (axis as stored: ascending, descending or unsorted) leave no
+    # residual at the generating parameters
+    if idxdep and len(g) >= 2 and len(set(t.tolist())) == len(t) and len(set(g.tolist())) == len(g) and np.isfinite(matrix).all():
+        import xarray as xr
+        from glotaran.optimization.optimize import optimize
+        from glotaran.project import Scheme
+
+        clp = rng.uniform(0.5, 2.0, (len(g), len(labels)))
+        D = np.stack([matrix[i] @ clp[i] for i in range(len(g))], axis=1)
+        dmax = float(np.abs(D).max())
+        if np.isfinite(D).all() and dmax > 1e-200:
+            m4, p4, _ = build(case)
+            ds = xr.DataArray(D, coords=[("time", t), ("spectral", g)]).to_dataset(name="data")
+            try:
+                with time_limit(60):
+                    r4 = optimize(Scheme(model=m4, parameters=p4, data={"d": ds}, maximum_number_function_evaluations=1, add_svd=False), verbose=False, raise_exception=True)
+            except (Exception, CaseTimeout) as e:  # noqa
+                r4 = None
+                if isinstance(e, CaseTimeout) or "infs or NaNs" in str(e):
+                    rec.skip(f"in-situ fit not evaluable: {type(e).__name__}")
+                else:
+                    rec.violation(f"insitu:raises:{type(e).__name__}", ctx, f"{type(e).__name__}: {str(e)[:200]}")
+                    return None
+            if r4 is not None:
+                res = r4.data["d"].residual.transpose("time", "spectral").values
+                rec.count("insitu_fits_checked")
+                order = "ascending" if (np.diff(g) > 0).all() else ("descending" if (np.diff(g) < 0).all() else "unsorted")
+                rec.features[f"insitu-axis={order}"] += 1
+                dev = float(np.abs(res).max()) / dmax
+                if not dev <= 1e-8:
+                    rec.violation(f"insitu:column-meets-another-index-matrix:{order}", ctx,
+                                  f"data simulated as matrix[i] @ clp_i per global index ({order} axis {g.tolist()}) leave a residual of {dev:.3e} (relative) at the generating parameters")
+                    return None
     # (iv) the SAME filled dataset model after the IRF parameters were changed in place: equal to a freshly filled one
     try:
         case2 = dict(case, vals=dict(case["vals"]))
